@@ -13,7 +13,7 @@ from .interp import (Ctx, Frame, PyRaise, _Return, _Break, _Continue, PathEnd, I
 from .values import (S, VOpt, VQty, VTime, VDelta, VEnum, SEnum, VRec, VRef, HObj, HList, HDict,
                      HSet, SymSeq, SymSet, SymMap, FuncRef, ClassRef, ModRef, ExtRef,
                      BoundBuiltin, Opaque, Unsupported, fresh_name, zreal, float_literal, GhostSeq,
-                     KeySetVal, HKeySet, HOptDict, HSymList, HSymSet)
+                     KeySetVal, HKeySet, HOptDict, HSymList, HSymSet, Coro, Stream)
 
 
 class SpecFn:
@@ -1024,6 +1024,8 @@ class Interp:
             return eng.call_by_contract(self, c, f, args, kwargs)
         if not isinstance(f.node, ast.Lambda) and f.closure is None and not eng.may_inline(self, target, f):
             raise Unsupported(f"call to {target}: no contract and not inlinable")
+        if isinstance(f.node, ast.AsyncFunctionDef):
+            return Coro(lambda: self.run_function(f, args, kwargs), label=f.qualname)
         return self.run_function(f, args, kwargs)
 
     def run_function(self, f: FuncRef, args, kwargs):
@@ -1596,7 +1598,7 @@ class Interp:
         it = self.as_symbolic_iterable(self.eval(node.iter, fr))
         if spec is not None:
             return self.engine.exec_loop_with_invariant(self, node, fr, spec, iterable=it)
-        if isinstance(it, (SymSeq, SymSet, SymMap)) or models.is_symbolic_iterable(self, it):
+        if isinstance(it, (SymSeq, SymSet, SymMap, Stream)) or models.is_symbolic_iterable(self, it):
             raise Unsupported(f"loop over a symbolic collection needs an invariant: for {self.src(node.target, fr)} in {self.src(node.iter, fr)}")
         items = self.iterate_concrete(it)
         for x in items:
@@ -1619,6 +1621,8 @@ class Interp:
                 return keysets.enumeration(self.engine, self, h.val)
             if isinstance(h, HSymList):
                 return h.seq
+            if isinstance(h, HObj) and h.cls.startswith("ext:") and h.fields.get("__stream__") is not None:
+                return Stream(h.fields["__stream__"], source=v)
         return v
 
     def s_With(self, node, fr):
